@@ -58,10 +58,13 @@ var c08MethodSets = map[string][]saml.EncryptionMethod{
 var c08MethodSetNames = []string{"gcm-only", "tripledes-only", "gcm-then-cbc", "keytransport-only", "unknown-only", "aes256-first"}
 
 type c08Knobs struct {
-	MaxIssueDelayMs int64   `json:"MaxIssueDelay_ms"`
-	MaxClockSkewMs  int64   `json:"MaxClockSkew_ms"`
-	LayoutName      string  `json:"layout_name"`
-	Layout          []c08KD `json:"sp_key_descriptors"`
+	MaxIssueDelayMs int64  `json:"MaxIssueDelay_ms"`
+	MaxClockSkewMs  int64  `json:"MaxClockSkew_ms"`
+	LayoutName      string `json:"layout_name"`
+	// LegacyRole: the SP's metadata has a second SPSSODescriptor role (another protocol, a non-POST binding at the same ACS location, no key descriptors),
+	// listed "first" or "last": the key of the SAML 2.0 role is advertised all the same
+	LegacyRole string  `json:"legacy_role,omitempty"`
+	Layout     []c08KD `json:"sp_key_descriptors"`
 }
 
 type c08Step struct {
@@ -161,6 +164,7 @@ func genEncrypt(g *Rng, tier string) *Plan {
 	k := c08Knobs{
 		MaxIssueDelayMs: Pick(g, int64(7000), 90_000, 660_000),
 		MaxClockSkewMs:  Pick(g, int64(0), 1000, 180_000),
+		LegacyRole:      Pick(g, "", "", "", "", "first", "last"),
 	}
 	if g.Bool(0.78) {
 		l := c08Layouts[g.Intn(len(c08Layouts))]
@@ -374,6 +378,11 @@ var c08Methods = []saml.EncryptionMethod{
 
 // c08Register builds the metadata the IdP's registry holds for the SP: the SP's own published
 // metadata with its key descriptors replaced by the layout, passed through XML.
+var c08LegacyRole string // set from the run's knobs while it executes
+
+// a binding the library keeps the location of but cannot answer on (it blanks the location of bindings it does not know)
+const c08LegacyBinding = saml.HTTPArtifactBinding
+
 func c08Register(spv *saml.ServiceProvider, kds []c08KD) (*saml.EntityDescriptor, error) {
 	b, err := xml.Marshal(spv.Metadata())
 	if err != nil {
@@ -398,6 +407,15 @@ func c08Register(spv *saml.ServiceProvider, kds []c08KD) (*saml.EntityDescriptor
 		out = append(out, d)
 	}
 	md.SPSSODescriptors[0].KeyDescriptors = out
+	if c08LegacyRole != "" {
+		legacy := saml.SPSSODescriptor{SSODescriptor: saml.SSODescriptor{RoleDescriptor: saml.RoleDescriptor{ProtocolSupportEnumeration: "urn:oasis:names:tc:SAML:1.1:protocol"}},
+			AssertionConsumerServices: []saml.IndexedEndpoint{{Binding: c08LegacyBinding, Location: spv.AcsURL.String(), Index: 1}}}
+		if c08LegacyRole == "first" {
+			md.SPSSODescriptors = append([]saml.SPSSODescriptor{legacy}, md.SPSSODescriptors...)
+		} else {
+			md.SPSSODescriptors = append(md.SPSSODescriptors, legacy)
+		}
+	}
 	b, err = xml.Marshal(md)
 	if err != nil {
 		return nil, err
@@ -644,6 +662,8 @@ func execEncrypt(t *testing.T, p *Plan) *Result {
 	saml.MaxIssueDelay = ms(k.MaxIssueDelayMs)
 	saml.MaxClockSkew = ms(k.MaxClockSkewMs)
 	_, encRand := installRand(p)
+	c08LegacyRole = k.LegacyRole
+	defer func() { c08LegacyRole = "" }()
 	w := &c08World{k: k, exp: c08Expectation(k.Layout), ivs: map[string]int{}, ceks: map[string]int{}}
 	w.rec = &c08Recorder{r: encRand}
 	xmlenc.RandReader = w.rec
@@ -795,6 +815,9 @@ func c08Emit(w *c08World, res *Result, si int, st c08Step) bool {
 			res.probe("advertised-key-refused")
 		case w.exp.DontCare:
 			res.dontcare("empty-encryption-certificate")
+		case w.k.LegacyRole == "first":
+			// the requested URL is first listed by the key-less role under a binding the IdP cannot answer on: refusing is the IdP's right
+			res.dontcare("requested-url-first-listed-under-a-non-post-binding")
 		default:
 			res.violate(si, "plaintext-path-failed", "C08/no-key/idp-failed/"+shape, "a response (plaintext allowed: no encryption key advertised)", fmt.Sprintf("HTTP %d, no form", rep.Code), "")
 			return true
